@@ -1214,6 +1214,25 @@ def r15_picklable_state(ctx, fam, rule="C04.R15"):
                 ctx.ob(rule, c.rel, f"{c.qual}.{name}", st, "the class stores a closure, so it defines how it is pickled", ok, detail={"hooks": hooks})
     ctx.floor(rule, "closure-valued attributes in pipeline classes", n, 2)
     densify_replay(ctx, rule)
+    # a live iterator kept between reads (pipes.Cache keeps the iterator of an unfinished read) cannot be pickled or deep copied either: the class's __getstate__ leaves it behind
+    m = 0
+    classes = dict(fam)
+    for c in ctx.model.classes:
+        if c.rel == "coba/pipes/filters.py":
+            classes.setdefault((c.rel, c.name), c)
+    for key, c in sorted(classes.items(), key=lambda kv: str(kv[0])):
+        for name, fn in sorted(c.methods.items()):
+            for st in walk_shallow(fn):
+                if not (isinstance(st, ast.Assign) and isinstance(st.value, (ast.Call, ast.GeneratorExp)) and (isinstance(st.value, ast.GeneratorExp) or call_name(st.value) == "iter")):
+                    continue
+                for t in [t for t in st.targets if is_self_attr(t)]:
+                    m += 1
+                    gs = c.methods.get("__getstate__")
+                    drops = gs is not None and any(isinstance(x, ast.Assign) and isinstance(x.value, (ast.Constant, ast.Tuple)) and "None" in unparse(x.value)
+                                                   and any(isinstance(k, ast.Subscript) and const_str(k.slice) == t.attr for tt in x.targets for k in ast.walk(tt)) for x in ast.walk(gs))
+                    ctx.ob(rule, c.rel, f"{c.name}.{name}", st, f"self.{t.attr} holds a live iterator between calls, so __getstate__ leaves it behind (a pipeline read part-way can still be pickled / deep copied)",
+                           bool(drops) or "__reduce__" in c.methods, detail={"has __getstate__": gs is not None})
+    ctx.floor(rule, "iterator-valued attributes in pipeline classes", m, 1)
 
 
 def densify_replay(ctx, rule):
@@ -1296,6 +1315,7 @@ def _bounded_memo(tree):
 CONTROLS = [
     ("Encode fits into the caller's mapping", PF, M.replace_expr("Encode.filter", "dict(self._encoders)", "self._encoders", nth=0), "C04.R17"),
     ("Densify replays only the started round", "coba/environments/filters.py", M.replace_expr("Densify.__setstate__", "lookup", "range(len(lookup) % self._n_feats)", nth=1), "C04.R15"),
+    ("Cache pickles the iterator of an unfinished read", "coba/pipes/filters.py", lambda tree: _drop_methods(tree, "Cache", ("__getstate__",)), "C04.R15"),
     ("Densify without pickling hooks", "coba/environments/filters.py", lambda tree: _drop_methods(tree, "Densify", ("__getstate__", "__setstate__")), "C04.R15"),
     ("rewards pickle as unchecked repr text", "coba/primitives.py", M.chain(M.replace_expr("DiscreteReward.__getstate__", "_as_literal((self._state, self._default))", "repr((self._state, self._default))"),
         M.replace_expr("DiscreteReward.__setstate__", "_of_literal(args)", "literal_eval(args)")), "C04.R14"),
